@@ -485,12 +485,12 @@ impl Inst for RustInst {
     }
     fn finished(&self) -> bool { self.s.is_finished() }
 }
-pub struct FfiInst { pub st: *mut brotli::ffi::compressor::BrotliEncoderState, pub ses: FfiSession }
+pub struct FfiInst { pub st: *mut brotli::ffi::compressor::BrotliEncoderState, pub ses: FfiSession, last: (usize, usize) }
 impl FfiInst {
     pub fn new() -> FfiInst {
         let ses = FfiSession::new(1);
         let st = unsafe { brotli::ffi::compressor::BrotliEncoderCreateInstance(Some(ffi_alloc), Some(ffi_free), ses.opaque(0)) };
-        FfiInst { st, ses }
+        FfiInst { st, ses, last: (0, 0) }
     }
     pub fn destroy(&mut self) { unsafe { brotli::ffi::compressor::BrotliEncoderDestroyInstance(self.st) }; self.st = core::ptr::null_mut(); }
 }
@@ -513,12 +513,13 @@ impl Inst for FfiInst {
     fn take_output(&mut self, max: usize) -> usize { let mut sz = max; unsafe { brotli::ffi::compressor::BrotliEncoderTakeOutput(self.st, &mut sz) }; sz }
     fn observe(&mut self) -> Obs {
         let mut fields = vec![];
-        let (mut ss, mut ca) = (0, 0);
+        let (mut ss, mut ca) = self.last; // cleanup does not reset storage_size_ / cmd_alloc_size_
         if !self.st.is_null() {
             let c = unsafe { &(*self.st).compressor };
             fields = snapshot(c);
             ss = c.storage_size_;
             ca = c.cmd_alloc_size_;
+            self.last = (ss, ca);
             fields.push(FB { slot: 8, ptr: self.st as usize, bytes: core::mem::size_of::<brotli::ffi::compressor::BrotliEncoderState>(), len: 1 });
         }
         let g = self.ses.st.lock().unwrap();
@@ -794,11 +795,13 @@ fn judge(leds: &[Ledger], rep: &mut Report, sig_pfx: &str, case: &str, known_for
 fn log_line(leds: &[Ledger]) -> Option<(String, String)> {
     let mut toks = vec![];
     let (mut out, mut foreign, mut dropped) = (0i64, 0u64, 0u64);
+    let ids: Vec<u32> = leds.iter().map(|l| l.id()).collect();
+    let norm = |x: u32| ids.iter().position(|y| *y == x).map(|p| p as u32).unwrap_or(1000 + x);
     for l in leds {
         let id = l.id();
         for e in l.events_from(0) {
             if e.origin != id { continue; }
-            match e.kind { 'A' => { toks.push(format!("A{}.{}", e.origin, e.bid)); out += 1; } 'F' => { toks.push(format!("F{}.{}.{}", e.via, e.origin, e.bid)); out -= 1; } 'X' => { toks.push(format!("F{}.{}.{}", e.via, e.origin, e.bid)); foreign += 1; out -= 1; } _ => { toks.push(format!("D{}.{}", e.origin, e.bid)); dropped += 1; } }
+            match e.kind { 'A' => { toks.push(format!("A{}.{}", norm(e.origin), e.bid)); out += 1; } 'F' => { toks.push(format!("F{}.{}.{}", norm(e.via), norm(e.origin), e.bid)); out -= 1; } 'X' => { toks.push(format!("F{}.{}.{}", norm(e.via), norm(e.origin), e.bid)); foreign += 1; out -= 1; } _ => { toks.push(format!("D{}.{}", norm(e.origin), e.bid)); dropped += 1; } }
         }
     }
     if toks.is_empty() || toks.len() > 4000 { return None; }
